@@ -2,137 +2,8 @@
 `register/quant.rs`: sample_all.
 (split out of GenRegs2.lean so that an equality that no longer holds blocks only the properties that rely on it)
 -/
-import Qvnt.Lemmas.GenQProb
-
-set_option linter.unusedSectionVars false
-
-namespace Qvnt.Gen2
-open Qvnt Qvnt.Gen
-
-variable {R : Type}
-
-/-! ### `sample_all` (`register/quant.rs`) -/
-section sample
-open Qvnt.QReg (HasRound)
-variable [Add R] [Sub R] [Mul R] [Div R] [Neg R] [Zero R] [One R] [Consts R]
-  [LE R] [DecidableLE R] [LT R] [DecidableLT R] [HasSqrt R] [RegConsts R] [HasRound R]
-
-/-- the surplus walk: one more unit of fuel than the model's (the translated loop tests its fuel first) -/
-theorem surplus_loop_eq (r : QRegG R) (fuel idx s : Nat) (n : List Nat) (hq : r.q_mask < n.length) :
-    (quant_sample_all_loop1 r (fuel + 1) (idx, n, s)).map (fun st => st.2.1) =
-      QReg.removeSurplus r.q_mask fuel idx s n := by
-  induction fuel generalizing idx s n with
-  | zero =>
-    cases s with
-    | zero => simp [quant_sample_all_loop1, QReg.removeSurplus]
-    | succ s' =>
-      unfold quant_sample_all_loop1 QReg.removeSurplus
-      by_cases h0 : n.getD (idx &&& r.q_mask) 0 = 0 <;> simp [h0, quant_sample_all_loop1]
-  | succ f ih =>
-    cases s with
-    | zero => simp [quant_sample_all_loop1, QReg.removeSurplus]
-    | succ s' =>
-      have hc : idx &&& r.q_mask < n.length := lt_of_le_of_lt Nat.and_le_right hq
-      unfold quant_sample_all_loop1 QReg.removeSurplus
-      have hget : n[idx &&& r.q_mask]? = some (n.getD (idx &&& r.q_mask) 0) := by
-        simp [List.getD_eq_getElem?_getD, List.getElem?_eq_getElem hc]
-      simp only [Nat.add_eq_zero_iff, one_ne_zero, and_false, beq_iff_eq, ↓reduceIte, hget]
-      cases hv : n.getD (idx &&& r.q_mask) 0 with
-      | zero => simp [ih (idx + 1) (s' + 1) n hq]
-      | succ v =>
-        have := ih (idx + 1) s' (n.set (idx &&& r.q_mask) v) (by simpa using hq)
-        simp [this]
-
-theorem updateSelected_eq_go (each extra : Nat) (n : List Nat) (p : List R) (k : Nat) :
-    Rs.updateSelectedAux (fun x => decide (x > 0)) (fun idx x => if idx < extra then x + each + 1 else x + each) n p k =
-      QReg.addDeficit.go each extra n (p.map fun x => decide (0 < x)) k := by
-  induction n generalizing p k with
-  | nil => cases p <;> simp [Rs.updateSelectedAux, QReg.addDeficit.go]
-  | cons x xs ih =>
-    cases p with
-    | nil => simp [Rs.updateSelectedAux, QReg.addDeficit.go]
-    | cons y ys =>
-      by_cases hy : (0 : R) < y
-      · simp only [Rs.updateSelectedAux, GT.gt, hy, decide_true, ↓reduceIte, List.map_cons, QReg.addDeficit.go, ih]
-        by_cases hk : k < extra <;> simp [hk, Nat.add_assoc]
-      · simp [Rs.updateSelectedAux, GT.gt, hy, QReg.addDeficit.go, ih]
-
-theorem rsSum_nat (l : List Nat) : Rs.sum l = l.sum := by
-  unfold Rs.sum
-  rw [List.sum_eq_foldl]
-
-/-- stage 1: the rounded Gaussian proposal, when there is a draw for every cell -/
-theorem proposal_eq (p g : List R) (count : Nat) (hg : p.length ≤ g.length) :
-    (let c : R := HasRound.ofNat count
-     let c_sqrt := HasSqrt.sqrt c
-     let n := List.map (fun a1 : R × R => HasSqrt.sqrt a1.1 * a1.2) (List.zip p g)
-     let n_sum := Rs.sum n
-     List.map (fun idx => Int.toNat (max (HasRound.roundInt ((c * p.getD idx 0) + (c_sqrt * (n.getD idx 0 - (n_sum * p.getD idx 0))))) (0 : Int)))
-       (Rs.range 0 p.length)) = QReg.sampleProposal p count g := by
-  unfold QReg.sampleProposal Rs.sum Rs.range
-  apply List.ext_getElem
-  · simp; omega
-  · intro i h1 h2
-    have hi : i < p.length := by simpa using h1
-    have hig : i < g.length := by omega
-    simp [List.getD_eq_getElem?_getD, hi, hig]
-
-/-- `sample_all` with the normal draws as an input list (one draw per cell at least), for every register whose
-mask and buffer fit its size: the translated function, given one more unit of fuel than the model's bound, is
-the model's `sampleAll` -/
-theorem quant_sample_all_eq (r : QReg R) (count : Nat) (g : List R) (hq : r.qNum < 64)
-    (hs : 2 ^ r.qNum ≤ r.psi.size) (hm : r.qMask < 2 ^ r.qNum) (hg : 2 ^ r.qNum ≤ g.length) :
-    quant_sample_all
-      (((QReg.sampleProposal r.getProbabilities count g).sum - count) *
-        ((QReg.sampleProposal r.getProbabilities count g).length + 1) +
-        (QReg.sampleProposal r.getProbabilities count g).length + 1 + 1) (ofModel r) count g =
-      r.sampleAll count g := by
-  have hp := quant_get_probabilities_eq r hq hs
-  have hpl : r.getProbabilities.length = 2 ^ r.qNum := by simp [QReg.getProbabilities]
-  have hprop := proposal_eq r.getProbabilities g count (by omega)
-  simp only at hprop
-  unfold quant_sample_all QReg.sampleAll QReg.sampleFix
-  simp only [hp, hprop]
-  generalize hn0 : QReg.sampleProposal r.getProbabilities count g = n0
-  have hn0l : n0.length = 2 ^ r.qNum := by
-    rw [← hn0]; unfold QReg.sampleProposal; simp [hpl]; omega
-  simp only [rsSum_nat]
-  by_cases hlt : n0.sum < count
-  · have h1 : ((Int.ofNat n0.sum - Int.ofNat count) < (0 : Int)) := by
-      simp only [Int.ofNat_eq_natCast]; omega
-    have hab : Int.natAbs (Int.ofNat n0.sum - Int.ofNat count) = count - n0.sum := by
-      simp only [Int.ofNat_eq_natCast]; omega
-    simp only [h1, decide_true, ↓reduceIte, hlt, hab, QReg.addDeficit, Rs.updateSelected]
-    have hsup : (List.filter (fun a4 : R => decide (a4 > 0)) r.getProbabilities).length =
-        (List.filter id (List.map (fun x => decide (0 < x)) r.getProbabilities)).length := by
-      rw [List.filter_map]; simp [Function.comp_def, GT.gt]
-    rw [hsup]
-    congr 1
-    rw [← updateSelected_eq_go]
-    congr 1
-    funext idx x
-    by_cases hk : idx < (count - n0.sum) % max (List.filter id (List.map (fun x => decide (0 < x)) r.getProbabilities)).length 1
-    · simp [hk]
-    · simp [hk]
-  · by_cases hgt : n0.sum > count
-    · have h1 : ¬ ((Int.ofNat n0.sum - Int.ofNat count) < (0 : Int)) := by
-        simp only [Int.ofNat_eq_natCast]; omega
-      have h2 : ((Int.ofNat n0.sum - Int.ofNat count) > (0 : Int)) := by
-        simp only [Int.ofNat_eq_natCast]; omega
-      have hcast : Int.toNat (Int.ofNat n0.sum - Int.ofNat count) = n0.sum - count := by
-        simp only [Int.ofNat_eq_natCast]; omega
-      simp only [h1, decide_false, Bool.false_eq_true, ↓reduceIte, h2, decide_true, hlt, hgt, hcast]
-      have := surplus_loop_eq (ofModel r) ((n0.sum - count) * (n0.length + 1) + n0.length + 1) 0 (n0.sum - count) n0
-        (by simp [ofModel, hn0l]; exact hm)
-      simp only [ofModel] at this ⊢
-      rw [← this]
-      cases quant_sample_all_loop1 (R := R) ⟨r.psi.toList, r.qNum, r.qMask⟩
-        ((n0.sum - count) * (n0.length + 1) + n0.length + 1 + 1) (0, n0, n0.sum - count) <;> simp
-    · have h1 : ¬ ((Int.ofNat n0.sum - Int.ofNat count) < (0 : Int)) := by
-        simp only [Int.ofNat_eq_natCast]; omega
-      have h2 : ¬ ((Int.ofNat n0.sum - Int.ofNat count) > (0 : Int)) := by
-        simp only [Int.ofNat_eq_natCast]; omega
-      simp [h1, h2, hlt, hgt]
-
-end sample
-end Qvnt.Gen2
+import Qvnt.Lemmas.GenSample.surplus_loop_eq
+import Qvnt.Lemmas.GenSample.updateSelected_eq_go
+import Qvnt.Lemmas.GenSample.rsSum_nat
+import Qvnt.Lemmas.GenSample.proposal_eq
+import Qvnt.Lemmas.GenSample.quant_sample_all_eq
